@@ -108,7 +108,7 @@ theorem arguments_map_refines (params : List String) (nargs : Nat) (hne : "" ∉
 theorem binding_instantiation_real (n function st i : Nat) (c : Fn.Ctx) (fv : Fn.V) (ps vs : List String) (ds : Fn.FDecls)
     (args : List Fn.V) (σ : FnM.St) (σs : Fn.St) (outer : Option Nat) (sc : FnM.Scope) (rest : List FnM.Scope) (env0 : Fn.Env)
     (hsc : σ.scopes = sc :: rest) (hlex : sc.lexical = st) (hvar : sc.variable_ = st) (hev : sc.eval = false)
-    (hs : σ.stash? st = some (.fn outer [] none)) (hn : (declNames ds).length < n) (hlen : args.length < 4294967295)
+    (hst0 : st ≠ 0) (hs : σ.stash? st = some (.fn outer [] none)) (hn : (declNames ds).length < n) (hlen : args.length < 4294967295)
     (hi : i ≠ 0) (he : σs.envs[i]? = some env0) (hv0 : env0.vars = []) :
     ∃ σ' ps' ar' σs' vars',
       FnM.instantiateNode n function st ps vs ds args σ = .ok () σ' ∧ σ'.stash? st = some (.fn outer ps' ar') ∧
@@ -118,7 +118,7 @@ theorem binding_instantiation_real (n function st i : Nat) (c : Fn.Ctx) (fv : Fn
           slot.map (interp args (fun j => σ.heap.length + (if ps.contains "arguments" then 0 else 1) + 2 * j) (.ref σ.heap.length)) ∧
         Fn.lookupA x vars' =
           slot.map (interp args (fun j => σs.heap.length + 2 * j) (.ref (σs.heap.length + 2 * (declNames ds).length))) := by
-  obtain ⟨σ', ps', ar', hrun, hst, hrel⟩ := instantiateNode_real n function st ps vs ds args σ outer sc rest hsc hlex hvar hev hs hn hlen
+  obtain ⟨σ', ps', ar', hrun, hst, hrel⟩ := instantiateNode_real n function st ps vs ds args σ outer sc rest hsc hlex hvar hev hst0 hs hn hlen
   obtain ⟨σs', vars', hruns, henv, hrels⟩ := instantiate_spec n i c ps args fv ds vs σs env0 hi hn he hv0
   refine ⟨σ', ps', ar', σs', vars', hrun, hst, hruns, henv, ?_⟩
   intro x
